@@ -47,7 +47,14 @@ var targetPool = []target{
 	{"example.org", "missing.example.org"}, // no such record
 	{"unknown.test", "unknown.test"},       // no such zone
 	{"example.net", "example.net"},         // other zone, r3
+	// only used by the "same name in two zones" family: a parent zone and its delegated child both hold an HTTPS record named
+	// sub.example.org (rec4 in example.org, rec5 at the apex of sub.example.org)
+	{"example.org", "sub.example.org"},
+	{"sub.example.org", "sub.example.org"},
+	{"sub.example.org", "www.example.org"}, // a name that exists in ANOTHER zone only: not found here
 }
+
+const basePool = 5
 
 func newStore(v1 string, pages bool) *cfmem.API {
 	z1 := &cfmem.Zone{ID: "zone1", Name: "example.org", Records: []*cfmem.Record{
@@ -55,6 +62,9 @@ func newStore(v1 string, pages bool) *cfmem.API {
 		{ID: "rec2", Name: "www.example.org", Priority: 2, Target: "svc.example.org", Value: `alpn="h2" ipv6hint=2001:db8::1`},
 		{ID: "rec9", Name: "untouched.example.org", Priority: 1, Target: ".", Value: `alpn="h3" ech="b2xk"`},
 		// records of OTHER types that share the targets' names (an API listing that is not restricted to HTTPS would return them)
+		{ID: "rec4", Name: "sub.example.org", Priority: 1, Target: ".", Value: `alpn="h2" port=8443`},
+		// a record with the largest priority there is (an int16 cannot hold it)
+		{ID: "rec8", Name: "hi-prio.example.org", Priority: 65535, Target: "last-resort.example.org", Value: `alpn="h2"`},
 		{ID: "recA1", Name: "example.org", Type: "A", Value: "192.0.2.1"},
 		{ID: "recT2", Name: "www.example.org", Type: "TXT", Value: "v=spf1 -all"},
 	}}
@@ -78,7 +88,10 @@ func newStore(v1 string, pages bool) *cfmem.API {
 		}
 		z2.Records = append(recs, z2.Records[0])
 	}
-	return cfmem.New([]*cfmem.Zone{z1, z2})
+	z3 := &cfmem.Zone{ID: "zone3", Name: "sub.example.org", Records: []*cfmem.Record{
+		{ID: "rec5", Name: "sub.example.org", Priority: 1, Target: ".", Value: `alpn="h3"`},
+	}}
+	return cfmem.New([]*cfmem.Zone{z1, z2, z3})
 }
 
 type call struct {
@@ -98,6 +111,8 @@ type scenario struct {
 	// R2Empty: the second record (on the second page of a paged zone) has no parameters at all and the API lists it without a
 	// "value" member
 	R2Empty bool `json:"r2_without_parameters,omitempty"`
+	// BigPad: the other records of the (paged) zone carry 4 KB parameter strings: a page of 20 records is larger than 64 KiB
+	BigPad bool `json:"other_records_have_4kB_values,omitempty"`
 }
 
 // tokens of a parameter string, ech entries separated out
@@ -145,6 +160,15 @@ func run(r *ev.Run, sc scenario) {
 			for _, rec := range z.Records {
 				if rec.ID == "rec2" {
 					rec.Value = ""
+				}
+			}
+		}
+	}
+	if sc.BigPad {
+		for _, z := range api.Zones {
+			for _, rec := range z.Records {
+				if strings.HasPrefix(rec.ID, "pad") || strings.HasPrefix(rec.ID, "npad") {
+					rec.Value = `alpn="h2" key65000="` + strings.Repeat("x", 4000) + `"`
 				}
 			}
 		}
@@ -287,6 +311,9 @@ func run(r *ev.Run, sc scenario) {
 				if strings.HasPrefix(id, "recA") || strings.HasPrefix(id, "recT") {
 					break // never a legitimate PATCH target
 				}
+				if tp.Zone == "example.org" && tp.Name == "sub.example.org" && id == "rec4" || tp.Zone == "sub.example.org" && tp.Name == "sub.example.org" && id == "rec5" {
+					ok = true
+				}
 				if (tp.Name == "example.org" && id == "rec1") || (tp.Name == "www.example.org" && id == "rec2") || (tp.Name == "example.net" && id == "rec3") {
 					ok = true
 				}
@@ -319,7 +346,7 @@ func dupKindAny(ts []int) string {
 }
 
 func Run(r *ev.Run) {
-	r.Rule("E4 histories of publishes on a fresh publisher + in-memory Cloudflare fake: initial value of the first record over 9 parameter strings (empty, no ech, ech first/middle/last, two ech entries, already current quoted/unquoted, a tab inside a quoted value with double blanks between parameters), zone on one page or spread over three pages (48 records), the API honouring the requested page size or capping it at 7/10/19 records per page; a record without parameters listed without its value member; calls = (target list over {r1, r2, missing record, unknown zone, record of a second zone} incl. duplicates, config list L1/L2, plus two lists whose base64 texts differ from each other only in letter case); the zones also hold A/TXT records under the targets' names; ALL histories of <=2 calls with lists of length <=2 (thorough <=3) and ALL histories of 3 calls with lists of length <=1; E2: a single API failure {HTTP 400, success:false with and without an errors list, malformed JSON, the caller's context cancelled} at every request index of every call (1-call and 2-call histories). A map-based model predicts each status; store and request log are checked after each call. distinct = distinct scenarios")
+	r.Rule("E4 histories of publishes on a fresh publisher + in-memory Cloudflare fake: initial value of the first record over 9 parameter strings (empty, no ech, ech first/middle/last, two ech entries, already current quoted/unquoted, a tab inside a quoted value with double blanks between parameters), zone on one page or spread over three pages (48 records), the API honouring the requested page size or capping it at 7/10/19 records per page; a record without parameters listed without its value member; calls = (target list over {r1, r2, missing record, unknown zone, record of a second zone} incl. duplicates, config list L1/L2, plus two lists whose base64 texts differ from each other only in letter case); the zones also hold A/TXT records under the targets' names, a record of priority 65535, and one FQDN exists in a parent zone and in its delegated child zone; a paged zone whose other records carry 4 KB values; ALL histories of <=2 calls with lists of length <=2 (thorough <=3) and ALL histories of 3 calls with lists of length <=1; E2: a single API failure {HTTP 400, success:false with and without an errors list, malformed JSON, the caller's context cancelled} at every request index of every call (1-call and 2-call histories). A map-based model predicts each status; store and request log are checked after each call. distinct = distinct scenarios")
 	r.Assume("parameter values contain no blanks (the publisher splits on single spaces); tabs inside quoted values and runs of blanks between parameters are in the alphabet", "a record that already carries several ech entries whose last one is current is outside the alphabet",
 		"the fake API follows Cloudflare v4 list semantics: result_info.count is the number of items on the page, total_count the total")
 	maxList := 2
@@ -327,7 +354,7 @@ func Run(r *ev.Run) {
 		maxList = 3
 	}
 	var lists [][]int
-	enum.Sequences(len(targetPool), maxList, func(s []int) { lists = append(lists, append([]int{}, s...)) })
+	enum.Sequences(basePool, maxList, func(s []int) { lists = append(lists, append([]int{}, s...)) })
 	var calls []call
 	for _, l := range lists {
 		for c := 0; c < 2; c++ {
@@ -391,6 +418,32 @@ func Run(r *ev.Run) {
 					}
 				}
 			}
+		}
+	}
+	// the same FQDN in a parent zone and in its delegated child zone: every ordered list of <=3 over {parent's, child's, r1, a name
+	// of another zone asked under the child}, one and two calls
+	{
+		var l2 [][]int
+		enum.Sequences(4, 3, func(s []int) {
+			if len(s) == 0 {
+				return
+			}
+			var l []int
+			for _, i := range s {
+				l = append(l, []int{5, 6, 0, 7}[i])
+			}
+			l2 = append(l2, l)
+		})
+		for _, l := range l2 {
+			for c := 0; c < 2; c++ {
+				scs = append(scs, scenario{V1: 1, Calls: []call{{l, c}}, FailCall: -1}, scenario{V1: 1, Calls: []call{{l, c}, {l, 1 - c}}, FailCall: -1})
+			}
+		}
+	}
+	// a zone whose other records carry 4 KB values (listing pages beyond 64 KiB)
+	for _, a := range small {
+		if len(a.Targets) == 1 {
+			scs = append(scs, scenario{V1: 1, Pages: true, Calls: []call{a, a, {a.Targets, 1 - a.Config}}, FailCall: -1, BigPad: true})
 		}
 	}
 	// the case-colliding list after (and before) the one it collides with, on every initial value, single-target lists
